@@ -1,11 +1,28 @@
 (* C09 property theorems only.  Proofs live in Proofs/C09_*.v, statements in Spec/C09_Spec.v. *)
 From BV Require Import Base.Prelude Model.Block Model.ForkDB Model.Forkable Model.ForkableLookups Model.Burst Model.Hub
-  Spec.C09_Spec Proofs.C09_Store Proofs.C09_Segment Proofs.C09_Proofs Proofs.C09_Ready.
+  Spec.Universe Spec.C09_Spec Proofs.C09_Store Proofs.C09_Segment Proofs.C09_Proofs Proofs.C09_Ready Proofs.C09_Invariant.
 Local Open Scope N_scope.
 
 Theorem c09_wf_preserved : C09_wf_preserved.
 Proof. exact c09_wf_preserved_proof. Qed.
 Print Assumptions c09_wf_preserved.
+
+(* every state a Forkable / a hub reaches from blocks of a well-formed universe is a wf_state *)
+Theorem c09_wf_reachable : C09_wf_reachable.
+Proof. exact c09_wf_reachable_proof. Qed.
+Print Assumptions c09_wf_reachable.
+
+Theorem c09_wf_universe_b : forall U, wf_b U = true -> wf_universe U.
+Proof. exact Proofs.C09_Invariant.c09_wf_universe_b. Qed.
+Print Assumptions c09_wf_universe_b.
+
+Theorem c09_hub_head_has_lib : C09_hub_head_has_lib.
+Proof. exact c09_hub_head_has_lib_proof. Qed.
+Print Assumptions c09_hub_head_has_lib.
+
+Theorem c09_hub_snapshots : C09_hub_snapshots.
+Proof. exact c09_hub_snapshots_proof. Qed.
+Print Assumptions c09_hub_snapshots.
 
 Theorem c09_fuel_sufficient : C09_fuel_sufficient.
 Proof. exact c09_fuel_sufficient_proof. Qed.
@@ -92,4 +109,10 @@ Example c09_nonvacuous_fits :
   forallb (fun p => (negb (key p =? bparent ex_b5) || (bnum (eb p) <? bnum ex_b5)) &&
                     (negb (bparent (eb p) =? bid ex_b5) || (bnum ex_b5 <? bnum (eb p))))
           (store (db (h_f ex_h1))) = true.
+Proof. vm_compute. auto. Qed.
+
+(* the universe of the examples is well formed, and the example hub is a run over it *)
+Example c09_nonvacuous_universe :
+  wf_b [ex_b1; ex_b2; ex_b3; ex_b3'; ex_b4; ex_b5] = true /\
+  ex_h2 = hub_run 1 2 hub_init [(ex_b4, PBlocks [ex_b1; ex_b2; ex_b3; ex_b3']); (ex_b5, PNil)].
 Proof. vm_compute. auto. Qed.
